@@ -112,6 +112,10 @@ fn b64(data: &[u8], urlsafe: bool) -> String {
 #[derive(Clone)]
 pub struct RigCfg { pub batch: u8, pub fault: u8, pub seed: Vec<u8>, pub client_stats: bool, pub level: usize, pub n_clients: usize, pub hc: bool }
 
+/// pseudo socket index: the datagram is sent through a raw socket with SOURCE PORT 0, an address the
+/// operating system refuses to send to (send_to fails with EINVAL): the server's send-failure path
+pub const UNROUTABLE: usize = 9999;
+
 pub struct Sent { pub id: usize, pub sock: usize, pub bytes: Vec<u8>, pub features: Value, pub nonce: Option<Vec<u8>>, pub t_sent_ns: u128 }
 
 pub struct Rig {
@@ -138,7 +142,23 @@ pub struct Rig {
     /// health-check listener port of the in-process server, connections made by the harness, planned connects
     pub hc_port: Option<u16>,
     pub hc_streams: Rc<RefCell<Vec<std::net::TcpStream>>>,
-    inject_tcp: Rc<RefCell<HashMap<(String, usize), usize>>>,
+    inject_tcp: Rc<RefCell<HashMap<(String, usize), Vec<bool>>>>,
+    /// raw IPPROTO_UDP socket (needs CAP_NET_RAW; -1 if it could not be created)
+    raw_fd: libc::c_int,
+}
+
+fn hc_connect_one(port: u16, aborted: bool, streams: &Rc<RefCell<Vec<std::net::TcpStream>>>) {
+    if let Ok(s) = std::net::TcpStream::connect(("127.0.0.1", port)) {
+        if aborted {
+            // SO_LINGER {on, 0}: close() sends RST instead of FIN
+            use std::os::unix::io::AsRawFd;
+            let l = libc::linger { l_onoff: 1, l_linger: 0 };
+            unsafe { libc::setsockopt(s.as_raw_fd(), libc::SOL_SOCKET, libc::SO_LINGER, &l as *const libc::linger as *const libc::c_void, std::mem::size_of::<libc::linger>() as libc::socklen_t); }
+            drop(s);
+        } else {
+            streams.borrow_mut().push(s);
+        }
+    }
 }
 
 fn now_ns() -> u128 { SystemTime::now().duration_since(UNIX_EPOCH).unwrap().as_nanos() }
@@ -186,7 +206,8 @@ impl Rig {
         let recv_count = Rc::new(RefCell::new(0usize));
         let rig = Rig { secrets: Secrets::new(&cfg.seed), cfg, server: Some(server), events: Events::with_capacity(1024), addr, clients, ltk_pub, srv,
             hooks, inject, counts, recv_count, root_ids: HashMap::new(), key_ids: HashMap::new(), announced_key, drifted: 0, injected_at: Rc::new(RefCell::new(Vec::new())), recv_sleep_ms: Rc::new(std::cell::Cell::new(0)),
-            hc_port, hc_streams: Rc::new(RefCell::new(Vec::new())), inject_tcp: Rc::new(RefCell::new(HashMap::new())) };
+            hc_port, hc_streams: Rc::new(RefCell::new(Vec::new())), inject_tcp: Rc::new(RefCell::new(HashMap::new())),
+            raw_fd: unsafe { libc::socket(libc::AF_INET, libc::SOCK_RAW, libc::IPPROTO_UDP) } };
         rig.install_tracer();
         Ok(rig)
     }
@@ -213,14 +234,36 @@ impl Rig {
                     let _ = socks[s].send_to(&bytes, addr);
                 }
             }
-            if let Some(k) = inject_tcp.borrow_mut().remove(&(e.name.to_string(), n)) {
-                if let Some(p) = hc_port { for _ in 0..k { if let Ok(s) = std::net::TcpStream::connect(("127.0.0.1", p)) { hc_streams.borrow_mut().push(s); } } }
+            if let Some(list) = inject_tcp.borrow_mut().remove(&(e.name.to_string(), n)) {
+                if let Some(p) = hc_port { for aborted in list { hc_connect_one(p, aborted, &hc_streams); } }
             }
             hooks.borrow_mut().push(e.clone());
         })));
     }
 
-    pub fn send(&self, sock: usize, bytes: &[u8]) -> bool { self.clients[sock].send_to(bytes, self.addr).is_ok() }
+    pub fn send(&self, sock: usize, bytes: &[u8]) -> bool {
+        if sock == UNROUTABLE { return self.send_unroutable(bytes); }
+        self.clients[sock].send_to(bytes, self.addr).is_ok()
+    }
+
+    pub fn can_spoof(&self) -> bool { self.raw_fd >= 0 }
+
+    /// a UDP datagram to the server whose source port is 0 (hand-made UDP header, checksum 0 = none)
+    fn send_unroutable(&self, bytes: &[u8]) -> bool {
+        if self.raw_fd < 0 { return false; }
+        let mut pkt = Vec::with_capacity(8 + bytes.len());
+        pkt.extend_from_slice(&0u16.to_be_bytes());
+        pkt.extend_from_slice(&self.addr.port().to_be_bytes());
+        pkt.extend_from_slice(&((8 + bytes.len()) as u16).to_be_bytes());
+        pkt.extend_from_slice(&0u16.to_be_bytes());
+        pkt.extend_from_slice(bytes);
+        let mut sa: libc::sockaddr_in = unsafe { std::mem::zeroed() };
+        sa.sin_family = libc::AF_INET as libc::sa_family_t;
+        sa.sin_addr.s_addr = u32::from_ne_bytes([127, 0, 0, 1]);
+        let n = unsafe { libc::sendto(self.raw_fd, pkt.as_ptr() as *const libc::c_void, pkt.len(), 0,
+                                      &sa as *const libc::sockaddr_in as *const libc::sockaddr, std::mem::size_of::<libc::sockaddr_in>() as libc::socklen_t) };
+        n == pkt.len() as isize
+    }
 
     /// schedule datagrams to be sent at the moment the server has received its k-th datagram of this pump
     pub fn plan_injection(&self, at_recv: usize, sock: usize, bytes: Vec<u8>) {
@@ -284,10 +327,14 @@ impl Rig {
 
     /// make `k` TCP connections to the health-check port now
     pub fn hc_connect(&self, k: usize) {
-        if let Some(p) = self.hc_port { for _ in 0..k { if let Ok(s) = std::net::TcpStream::connect(("127.0.0.1", p)) { self.hc_streams.borrow_mut().push(s); } } }
+        if let Some(p) = self.hc_port { for _ in 0..k { hc_connect_one(p, false, &self.hc_streams); } }
+    }
+    /// one connection; `aborted`: the peer resets it (RST) right away, while it still waits in the accept queue
+    pub fn hc_connect_kind(&self, aborted: bool) {
+        if let Some(p) = self.hc_port { hc_connect_one(p, aborted, &self.hc_streams); }
     }
     /// ... or at the n-th occurrence of a hook event during the next pumping
-    pub fn plan_hc_connect_at(&self, hook: &str, n: usize, k: usize) { *self.inject_tcp.borrow_mut().entry((hook.to_string(), n)).or_insert(0) += k; }
+    pub fn plan_hc_connect_at(&self, hook: &str, n: usize, aborted: bool) { self.inject_tcp.borrow_mut().entry((hook.to_string(), n)).or_default().push(aborted); }
 
     /// let the worker run until it is idle (one poll timed out without any hook activity); returns panic message
     pub fn pump_until_idle(&mut self) -> Option<String> {
@@ -300,8 +347,8 @@ impl Rig {
             let new: usize = self.hooks.borrow()[before..].iter().filter(|e| e.name != "poll" && e.name != "pe_return").count();
             if new == 0 {
                 // connects planned at hook points that never came up are made now, then one more pass
-                let pending: usize = self.inject_tcp.borrow_mut().drain().map(|(_, k)| k).sum();
-                if pending > 0 { self.drifted += pending; self.hc_connect(pending); continue; }
+                let pending: Vec<bool> = self.inject_tcp.borrow_mut().drain().flat_map(|(_, k)| k).collect();
+                if !pending.is_empty() { self.drifted += pending.len(); for a in pending { self.hc_connect_kind(a); } continue; }
                 return None;
             }
         }
@@ -347,7 +394,7 @@ impl Rig {
             Some(s) => {
                 let st = s.verif_stats();
                 json!({"ev": "stats", "valid": st.total_valid_requests(), "invalid": st.total_invalid_requests(),
-                       "responses": st.total_responses_sent(), "bytes": st.total_bytes_sent(),
+                       "responses": st.total_responses_sent(), "bytes": st.total_bytes_sent(), "failed": st.total_failed_send_attempts(),
                        "rfc": st.num_rfc_requests(), "classic": st.num_classic_requests()})
             }
             None => json!({"ev": "stats", "valid": 0, "invalid": 0, "responses": 0, "bytes": 0}),
@@ -424,7 +471,7 @@ impl<'a> FactCtx<'a> {
 }
 
 impl Drop for Rig {
-    fn drop(&mut self) { verif::set_tracer(None); }
+    fn drop(&mut self) { verif::set_tracer(None); if self.raw_fd >= 0 { unsafe { libc::close(self.raw_fd); } } }
 }
 
 pub fn now() -> u128 { now_ns() }
